@@ -1,6 +1,6 @@
 (* C15 - executable comparison functions for the correspondence harnesses (evaluated with
    vm_compute on the observed cases by checks/c15.py). *)
-From DtlsV Require Import Lib.Bytes Rec.Window Rrc.C15Manager Rrc.C15Conn Rrc.C15Router.
+From DtlsV Require Import Lib.Bytes Rec.Window Rrc.C15Manager Rrc.C15Conn Rrc.C15Newest Rrc.C15Router.
 Open Scope N_scope.
 
 Fixpoint mismatches_from {A} (ok : A -> bool) (i : N) (l : list A) : list N :=
@@ -68,10 +68,12 @@ Definition unit_ok (c : unit_case) : bool := unit_run [] [] c.
 (* one scripted step of the end-to-end harness *)
 Inductive e2e_step :=
 (* a datagram holding one protected record is delivered to the endpoint under test:
-   source address, sequence number, connection-ID field of the header (None = ordinary record),
-   wire bytes, decoded content, cookie of the challenge the endpoint emitted in this step (0 if none),
-   virtual time *)
-| SDeliver (from : addr) (seq : N) (rc : option bytes) (nbytes : N) (k : content) (cookie now : N)
+   source address, epoch, sequence number, connection-ID field of the header (None = ordinary
+   record), wire bytes, decoded content, cookie of the challenge the endpoint emitted in this step
+   (0 if none), virtual time, and the endpoint's remote epoch after the step (an input: which
+   records raise it - ChangeCipherSpec, KeyUpdate - is the handshake's business) *)
+| SDeliver (from : addr) (ep seq : N) (rc : option bytes) (nbytes : N) (k : content)
+           (cookie now repoch : N)
 (* the clock was advanced and the bubble is idle again *)
 | STick (now : N).
 
@@ -79,25 +81,22 @@ Inductive e2e_step :=
    destination; size; cookie), and whether Read returned a payload *)
 Definition e2e_obs := (addr * list (N * addr * N * N) * bool)%type.
 
-Record e2e_st := mkE { e_win : win; e_conn : cstate }.
-
 Definition out_proj (o : out) : N * addr * N * N :=
   ((match o_type o with TChallenge => 0 | TResponse => 1 end), o_dest o, o_size o, o_cookie o).
 
-Definition MAXSEQ : N := 281474976710655.
-
-Definition e2e_step_fn (local : bytes) (wsize : N) (st : e2e_st) (s : e2e_step)
-  : e2e_st * list (N * addr * N * N) * bool :=
+(* the step function IS C15Newest.estep (repaired verdict): admission by epoch, replay window and
+   connection ID, the newest-record verdict, then the connection-level step *)
+Definition e2e_step_fn (local : bytes) (wsize : N) (st : estate) (s : e2e_step)
+  : estate * list (N * addr * N * N) * bool :=
   match s with
-  | STick now => (mkE (e_win st) (fst (cstep (e_conn st) (EPurge now))), [], false)
-  | SDeliver from seq rc nb k cookie now =>
-      if check MAXSEQ (e_win st) seq && record_admitted local rc then
-        let '(w', latest) := accept MAXSEQ (e_win st) seq in
-        let r := mkRecv from (match rc with Some _ => true | None => false end) latest nb k
-                        cookie wsize WOk now in
-        let '(c', outs) := cstep (e_conn st) (ERecord r) in
-        (mkE w' c', map out_proj (filter o_sent outs), match k with KApp => true | _ => false end)
-      else (st, [], false)
+  | STick now => (fst (fst (estep true local st (EConn (EPurge now)))), [], false)
+  | SDeliver from ep seq rc nb k cookie now repoch =>
+      let r := mkRecv from (match rc with Some _ => true | None => false end) false nb k
+                      cookie wsize WOk now in
+      let '(st1, outs, acc) := estep true local st (EArrive (mkArr ep seq rc r)) in
+      let st2 := fst (fst (estep true local st1 (EEpoch repoch))) in
+      (st2, map out_proj (filter o_sent outs),
+       match acc, k with Some _, KApp => true | _, _ => false end)
   end.
 
 Definition quad_eqb (x y : N * addr * N * N) : bool :=
@@ -111,24 +110,32 @@ Fixpoint quads_eqb (x y : list (N * addr * N * N)) : bool :=
   | _, _ => false
   end.
 
-Fixpoint e2e_run (local : bytes) (wsize : N) (st : e2e_st) (steps : list (e2e_step * e2e_obs)) : bool :=
+Fixpoint e2e_run (local : bytes) (wsize : N) (st : estate) (steps : list (e2e_step * e2e_obs)) : bool :=
   match steps with
   | [] => true
   | (s, (ra, outs, delivered)) :: rest =>
       let '(st', mouts, mdel) := e2e_step_fn local wsize st s in
-      (raddr (e_conn st') =? ra) && quads_eqb mouts outs && Bool.eqb mdel delivered
+      (raddr (e_c st') =? ra) && quads_eqb mouts outs && Bool.eqb mdel delivered
       && e2e_run local wsize st' rest
   end.
 
+(* the protected records the endpoint was handed during the handshake: only the windows and the
+   per-epoch flags they leave behind matter *)
+Fixpoint npre (st : nstate) (pre : list (N * N)) : nstate :=
+  match pre with
+  | [] => st
+  | (ep, seq) :: pre' =>
+      npre (if nadmit st ep seq then fst (naccept true st ep seq) else st) pre'
+  end.
+
 (* case: RRC negotiated, local connection ID of the endpoint under test, wire size of its RRC
-   records, epoch-1 sequence numbers it accepted during the handshake, initial remote address,
-   steps with observations *)
-Definition e2e_case := (bool * bytes * N * list N * addr * list (e2e_step * e2e_obs))%type.
+   records, protected records (epoch, seq) it was handed during the handshake, its remote epoch
+   after the handshake, initial remote address, steps with observations *)
+Definition e2e_case := (bool * bytes * N * list (N * N) * N * addr * list (e2e_step * e2e_obs))%type.
 
 Definition e2e_ok (c : e2e_case) : bool :=
-  let '(neg, local, wsize, pre, ra0, steps) := c in
-  let w := fst (Window.run MAXSEQ (win_init 64) pre) in
-  e2e_run local wsize (mkE w (mkC ra0 neg [])) steps.
+  let '(neg, local, wsize, pre, repoch0, ra0, steps) := c in
+  e2e_run local wsize (mkES (npre (ninit repoch0) pre) (mkC ra0 neg [])) steps.
 
 (* ---------------------------------------------------------------- (c) router *)
 
